@@ -2225,15 +2225,17 @@ Proof.
 Qed.
 
 (* ================================================================== 2d: the probe, and the non-recursive watch *)
-Theorem probe C w k r de name w' : RSync C w k r -> c_mask C = WATCHDOG_ALL ->
+Definition touch_raws (wd : N) (name p : bytes) : list raw :=
+  [{| r_wd := wd; r_mask := IN_CREATE; r_cookie := 0; r_name := name; r_path := p |};
+   {| r_wd := wd; r_mask := IN_OPEN; r_cookie := 0; r_name := name; r_path := p |};
+   {| r_wd := wd; r_mask := IN_CLOSE_WRITE; r_cookie := 0; r_name := name; r_path := p |}].
+
+Theorem probe_raws C w k r de name w' : RSync C w k r -> c_mask C = WATCHDOG_ALL ->
   In de (w_fs w) -> f_dir de = true -> scope C (f_path de) -> valid_name name = true ->
   let p := f_path de ++ sep :: name in
   apply_op w (Touch p) = Some w' ->
   let k1 := kernel_op k (w_fs w) (Touch p) in
-  exists wd rest,
-    let ev := {| r_wd := wd; r_mask := IN_CREATE; r_cookie := 0; r_name := name; r_path := p |} in
-    read_batch C (w_fs w') (r, drainq k1, []) (k_queue k1) = Done (r, drainq k1, ev :: rest) /\
-    forall full rec content, emit_single full rec (c_root C) content ev = ([mk FileCreated p []; parent_modified p], false).
+  exists wd, read_batch C (w_fs w') (r, drainq k1, []) (k_queue k1) = Done (r, drainq k1, touch_raws wd name p).
 Proof.
   intros S Hm Hde Dde Sde Vn p Ha k1. destruct S as [W Hr I Cv Hq].
   assert (Gd : gpath (f_path de)) by (apply npath_gpath; now apply (wf_np w W)).
@@ -2257,8 +2259,24 @@ Proof.
   rewrite (read_one_inert C _ _ _ _ _ (f_path de)); [|unfold inert; repeat split; vm_compute; reflexivity | exact Cp].
   rewrite (read_one_inert C _ _ _ _ _ (f_path de)); [|unfold inert; repeat split; vm_compute; reflexivity | exact Cp].
   unfold raw_ev, kev. cbn [k_wd k_mask k_cookie k_name app]. rewrite Hsp.
-  eexists _, _. split; [reflexivity|]. intros full rec content. reflexivity.
+  eexists. reflexivity.
 Qed.
+
+Theorem probe C w k r de name w' : RSync C w k r -> c_mask C = WATCHDOG_ALL ->
+  In de (w_fs w) -> f_dir de = true -> scope C (f_path de) -> valid_name name = true ->
+  let p := f_path de ++ sep :: name in
+  apply_op w (Touch p) = Some w' ->
+  let k1 := kernel_op k (w_fs w) (Touch p) in
+  exists wd rest,
+    let ev := {| r_wd := wd; r_mask := IN_CREATE; r_cookie := 0; r_name := name; r_path := p |} in
+    read_batch C (w_fs w') (r, drainq k1, []) (k_queue k1) = Done (r, drainq k1, ev :: rest) /\
+    forall full rec content, emit_single full rec (c_root C) content ev = ([mk FileCreated p []; parent_modified p], false).
+Proof.
+  intros S Hm Hde Dde Sde Vn p Ha k1.
+  destruct (probe_raws C w k r de name w' S Hm Hde Dde Sde Vn Ha) as (wd & H).
+  eexists _, _. split; [exact H|]. intros full rec content. reflexivity.
+Qed.
+
 
 (* non-recursive watch: an operation in a directory other than the root produces no kernel event at all *)
 Theorem flat C w k r p w' : RSync C w k r -> c_recursive C = false -> dirname p <> c_root C ->
@@ -2286,3 +2304,11 @@ Qed.
 Lemma ops_covered_cons C w o ops w' : apply_op w o = Some w' -> covered_op C w o -> ops_covered C w' ops ->
   ops_covered C w (o :: ops).
 Proof. intros Ha Ho Hc. cbn [ops_covered]. rewrite Ha. now split. Qed.
+
+(* operations that leave the root and its ancestors alone (used by the full statements) *)
+Definition op_keeps_root (C : cfg) (o : op) : Prop :=
+  match o with
+  | Rmdir p => p <> c_root C
+  | Rename p q => p <> c_root C /\ q <> c_root C /\ under p (c_root C) = false
+  | _ => True
+  end.
